@@ -723,8 +723,18 @@ pub fn run(case: &Value) -> Vec<Value> {
             needles.push(crate::leak::needle("kSigning", &k4, false));
         }
         // the correct signature under the provider's key, as evaluated for the library's own string-to-sign
+        // (a signature the client itself presented is not a disclosure: only a server-computed signature that
+        // differs from the presented one counts)
+        let presented: Vec<u8> = staged
+            .iter()
+            .find(|s| get_str(s, "ev") == "StageParams" && get_str(s, "res") == "ok")
+            .map(|s| get_bytes(s, "sig"))
+            .unwrap_or_default();
         for e in oracle.sig.iter() {
-            if bytes_of(&e["secret"]) == script.secret {
+            let exp = bytes_of(&e["out"]);
+            let shown = presented.to_ascii_lowercase();
+            let client_has_it = !exp.is_empty() && shown.windows(exp.len()).any(|w| w == exp.as_slice());
+            if bytes_of(&e["secret"]) == script.secret && !client_has_it {
                 let hexsig = bytes_of(&e["out"]);
                 let mut n = crate::leak::needle("expectedSig", &[], false);
                 n.forms.push(hexsig.clone());
